@@ -47,7 +47,7 @@ func VerifC11_OneStep() {
 	if symx.Thorough() {
 		c0, c1 = symx.Choice("class0", 3), symx.Choice("class1", 3)
 	} else {
-		cc := [][2]int{{0, 0}, {1, 0}, {0, 1}, {2, 2}}[symx.Choice("classes", 4)]
+		cc := [][2]int{{0, 0}, {1, 0}}[symx.Choice("classes", 2)]
 		c0, c1 = cc[0], cc[1]
 	}
 	var code []byte
